@@ -232,7 +232,7 @@ def main():
         for sname, setup, n, m in states(rng):
             plist = probes(n, m, rng)
             # one case per state; every probe in its own FORK section; section 0 = baseline follow-up without a probe
-            body = ["CASE %s%d" % (sname, rd), "RESET"] + setup
+            body = ["CASE %s%d" % (sname, rd), "RESET"] + setup + ["POISON h0"]
             sections = [dict(fn="baseline", role="-", op="ECHO nop", expect="any", pre=[])] + plist
             for k, p in enumerate(sections):
                 lines = ["ECHO id %d" % k] + p.get("pre", []) + ["ECHO before", "DUMPALL h0", "ECHO probe", p["op"], "ECHO after", "DUMPALL h0", "ECHO follow"] + FOLLOW
@@ -283,7 +283,7 @@ def main():
                 crashed = end is None or "CRASH" in end
                 if base_crashed and "after" in sec:
                     crashed = False         # cannot attribute a follow-up crash to the probe
-                replay = "CASE replay\nRESET\n" + "\n".join(setup + ["FORK %d" % (len(p.get("pre", [])) + 6 + len(FOLLOW))] + p.get("pre", []) +
+                replay = "CASE replay\nRESET\n" + "\n".join(setup + ["POISON h0", "FORK %d" % (len(p.get("pre", [])) + 6 + len(FOLLOW))] + p.get("pre", []) +
                                                               ["DUMPALL h0", "ECHO probe", p["op"], "ECHO after", "DUMPALL h0", "ECHO follow"] + FOLLOW) + "\n"
 
                 def viol(kind, text_):
